@@ -56,6 +56,7 @@ class ConcRunner:
             if cell.get("active"):
                 runner.self_overlap = True
             cell["active"] = True
+            cell["entered"] = True
             runner.running_now += 1
             runner.max_parallel = max(runner.max_parallel, runner.running_now)
             try:
@@ -63,6 +64,10 @@ class ConcRunner:
                 # a callback that takes a while (other threads get that many turns meanwhile)
                 for _w in range(runner.scn.get("cb_len", 0)):
                     ctrl.yield_point("cb-work", key)
+                w = cell.get("wait_for")
+                if w is not None:
+                    # block until another job's callback has been entered (a free worker must pick that job up)
+                    ctrl.block_until(lambda: w < len(runner.cells) and bool(runner.cells[w].get("entered")), f"wait_for(job{w})")
                 b = cell.get("barrier")
                 if b is not None:
                     bar = runner.barriers[b]
@@ -104,7 +109,7 @@ class ConcRunner:
         call = CALLS[o["call"]]
         ts = [py_timing(t) for t in o["timings"]]
         timing = ts if o.get("is_list") else ts[0]
-        cell = {"script": o.get("script"), "barrier": o.get("barrier"), "raises": o.get("raises")}
+        cell = {"script": o.get("script"), "barrier": o.get("barrier"), "raises": o.get("raises"), "wait_for": o.get("wait_for")}
         cb = self.make_cb(cell)
         kw = {}
         tags = py_tags(o.get("tags"), None)
@@ -162,7 +167,11 @@ class ConcRunner:
                     elif k == "str":
                         text = str(self.sched)
                         n = int(text.split("#jobs=")[1].split("\n")[0])
-                        rec["result"] = ("n", n)
+                        # number of table rows = non-empty lines below the dashed separator row
+                        lines = text.split("\n")
+                        sep = max((i for i, ln in enumerate(lines) if ln.strip() and set(ln.strip()) <= set("- ")), default=len(lines) - 1)
+                        rows = sum(1 for ln in lines[sep + 1:] if ln.strip())
+                        rec["result"] = ("n", n, rows)
                     elif k == "repr":
                         repr(self.sched)
                         rec["result"] = ("u",)
